@@ -40,7 +40,7 @@ add("C18","exploration",
     "runtime monitoring: admin console rows vs harness ledger and mock counters at quiescent points", "DESIGN.md 5 C18")
 add("C07","fault_enumeration",
     "Held on every fault script produced: random scripts over {down, accept-and-hang, hang on query, health-check hang, close mid-reply, slow, admin BAN/UNBAN} against 1-3 replicas with looping clients of every role request, judged with happens-before margins on the mock log, client outcomes and latencies, pgcat's ban/checkout hook events and SHOW BANS samples; scripted leg for BAN/UNBAN/unban-all/expiry/primary-never-banned.",
-    "Trusted: ban and checkout hook events as happens-before anchors (verdict-bearing facts are still client outcomes and mock arrivals); an error is excused only if the statement's server had a fault or no candidate had been continuously healthy; ban-expiry liveness is restated as bounded progress (80 eligible transactions).",
+    "Trusted: ban and checkout hook events as happens-before anchors (verdict-bearing facts are still client outcomes and mock arrivals); an error is excused only if the statement's server had a fault or no candidate had been continuously healthy; ban-expiry liveness is restated as bounded progress (80 eligible transactions); a scenario during which a responsiveness probe of the pooler took 100 ms or longer (machine overloaded) counts as not observed, its alarms are counted in the evidence, not reported.",
     "runtime monitoring with fault injection: mock log + hook anchors + admin console, happens-before oracle", "DESIGN.md 5 C07")
 add("C20","fault_enumeration",
     "Held on every scenario produced: the same seeded client program run with 1-2 mirrors under a random mirror fault schedule (down, accept-and-hang/close, hang on query, slow, trickling replies, close/hang mid-reply, error replies) and without mirrors gives identical client-visible replies; latency verdicts are taken only from isolated re-runs; every mirror session's inbound traffic embeds as whole messages, in order, into one session of the mirrored server.",
@@ -71,10 +71,10 @@ add("C15","exploration",
     "Trusted: the generator's defect classes for its own bounded grammar; acceptance is judged at start-up (reload acceptance is covered by C14's invalid variants).",
     "runtime monitoring: accept/reject vs generator class + servability sweep on labelled mocks", "DESIGN.md 5 C15")
 add("C11","exploration",
-    "Held on every hostile case produced (1440 quick / 24000 thorough): 7 protocol states x 50 mutations of startup packets, frames, bodies and message order; after each case pgcat is alive, a canary on the shared pool_size=1 pool gets its own correct reply on a clean session, a canary on a second pool is served while the attacker is still connected, capacity and admin console are intact.",
-    "Trusted: canary/probe oracles reuse C02's cleanliness and C04's capacity probe; declared lengths above 64 MiB are outside the verdict (RSS is reported); sender-confined panics are allowed by the property and only catalogued. ASan/Miri legs for the decoders are not built (see DESIGN).",
+    "Held on every hostile case produced (1440 quick / 24000 thorough): 7 protocol states x 55 mutations of startup packets, frames, bodies and message order; after each case pgcat is alive, a canary on the shared pool_size=1 pool gets its own correct reply on a clean session, a canary on a second pool is served while the attacker is still connected, capacity and admin console are intact.",
+    "Trusted: canary/probe oracles reuse C02's cleanliness and C04's capacity probe; declared lengths above 64 MiB are outside the verdict (RSS is reported); sender-confined panics are allowed by the property and only catalogued.",
     "runtime monitoring: hostile-input injection with liveness + canary + capacity oracles", "DESIGN.md 5 C11")
 add("C08","exploration",
     "Held, apart from one listed known finding (cache size 1 with two Parses in one batch), on every Execute produced (about 12000 per quick run): the text and parameter types the mock actually ran (resolved through its own statement/portal tables) equal what the same client most recently prepared under that name, across server connections, cache sizes 1-500, shared names between clients, near-colliding statement encodings, Close+Parse in one batch, Describe and Close; one server-side name never stands for two statements.",
-    "Trusted: mock's statement/portal tables; per-client direct-connection model; re-Parse without Close is don't-care; 64-bit hash collisions of the cache key are not explored. ASan/Miri legs on codecs not built.",
+    "Trusted: mock's statement/portal tables; per-client direct-connection model; re-Parse without Close is don't-care; 64-bit hash collisions of the cache key are not explored.",
     "runtime monitoring: per-client reference model vs statement text executed at the mock backend", "DESIGN.md 5 C08")
